@@ -6,6 +6,7 @@ import PqV.Lemmas.KHybrid
 import PqV.Lemmas.KDelta
 import PqV.Lemmas.KPlain
 import PqV.Lemmas.KDeltaLoop
+import PqV.Lemmas.KEncode
 /-!
 # C11 — primitive codecs agree with the specification on their whole bounded domain
 
@@ -160,6 +161,30 @@ theorem deltaBinaryUnpack_refines (pre post : List Nat) (longval : Bool) (blockS
 /-- **`width_from_max_int` (55-61)** = the specification's level / index width for every maximum below 2^63 -/
 theorem widthFromMaxInt_refines (n : Nat) (h : n < 2 ^ 63) : widthFromMaxInt (n : Int) = widthFor n :=
   widthFromMaxInt_eq n h
+
+/-- **`encode_bitpacked` (293-310) refines the specification's packing** on its whole bounded domain: every width
+    0..24 (the `int32` accumulator holds at most 7 pending bits plus one value), any number (< 2^31) of values that fit
+    the width.  Output = run header announcing `⌈n/8⌉` groups ++ `packLE w vals` (exactly `⌈n·w/8⌉` bytes: the last group
+    is not padded), no fault.  Loop invariant over (`bit`, `bits`, bytes drained) in `Lemmas/KEncode`. -/
+theorem encodeBitpacked_refines (w : Nat) (hw : w ≤ 24) (vals : List Nat) (hv : ∀ v ∈ vals, v < 2 ^ w) (hn : vals.length < 2 ^ 31) :
+    encodeBitpacked vals w = .ok (uvarintEnc ((vals.length + 7) / 8 * 2 + 1) ++ packLE w vals) :=
+  encodeBitpacked_eq w hw vals hv hn
+
+/-- what `encode_bitpacked` writes is read back by the specification whatever follows it: the header announces `⌈n/8⌉`
+    groups and the first `n` values of the payload are the input -/
+theorem encodeBitpacked_decodes (w : Nat) (hw : w ≤ 24) (vals tail : List Nat) (hv : ∀ v ∈ vals, v < 2 ^ w) (hn : vals.length < 2 ^ 31) :
+    ∃ out payload, encodeBitpacked vals w = .ok out ∧
+      uvarintDec (out ++ tail) = some ((vals.length + 7) / 8 * 2 + 1, payload) ∧ unpackLE w vals.length payload = vals :=
+  PqV.Impl.encodeBitpacked_decodes w hw vals tail hv hn
+
+/-- for whole groups of 8 the kernel's output IS the specification's bit-packed run and the hybrid decoder returns the input -/
+theorem encodeBitpacked_whole_groups (w : Nat) (hw : w ≤ 24) (vals tail : List Nat) (hv : ∀ v ∈ vals, v < 2 ^ w) (hn : vals.length < 2 ^ 31)
+    (h8 : vals.length % 8 = 0) :
+    encodeBitpacked vals w = .ok (encodeRun w (.bp vals)) ∧ decodeHybrid w vals.length (encodeRun w (.bp vals) ++ tail) = vals :=
+  PqV.Impl.encodeBitpacked_whole_groups w hw vals tail hv hn h8
+
+-- witnesses: the hypotheses are met by a run of 8 three-bit values; at width 25 the accumulator overflows (the model loses bits)
+example : encodeBitpacked [1, 2, 3, 4, 5, 6, 7, 0] 3 = .ok (encodeRun 3 (.bp [1, 2, 3, 4, 5, 6, 7, 0])) := by decide +kernel
 
 -- a stream meeting the hypotheses: block size 8, one miniblock per block, widths 3 and 0, five values
 example : BlockOk 8 1 ((-1 : Int), [((3 : Nat), [5, 0, 7, 1, 0, 0, 0, 0])]) :=
